@@ -9,7 +9,9 @@ CONSTANTS
   Leaky = FALSE
   Alphabet <- AllCmds
   PreAlphabet <- AllCmds
-  Kinds <- AllKinds
+  Kinds <- EveryKind
+  Modes <- BothModes
+  Fins <- AllFins
   Ctxs <- BothCtxs
 INIT Init
 NEXT Next
